@@ -86,6 +86,7 @@ def handleCase (mode : String) (id : Nat) (hdr body : List Sexp) : String :=
   | "threads" => Drv.Threads.handle id hdr body
   | "asyncio" => Drv.Asyncio.handle id hdr body
   | "decorators" => Drv.Decorators.handle id hdr body
+  | "decoratorsNwr" => Drv.Decorators.handleNwr id hdr body
   | "cache" => Drv.Cache.handle id hdr body
   | "debug" => Drv.Debug.handle id hdr body
   | "mock" => Drv.Mock.handle id hdr body
